@@ -3,7 +3,7 @@
    (pdf, plain, html, odg, odf, e-mail, pptx, ppt, odp, xlsx, xls, ods, epub, rtf); `units c` is
    [(u.get_metadata().unit_number, u.get_text()) for u in c.iterate_units()], `full_text c` is c.get_full_text(). *)
 From Coq Require Import ZArith List Bool Sorted.
-From S2T Require Import Lib.PyStr C03.Lib C03.Model C03.Proofs C03.Extract C03.Docx C03.ProofsX C03.ProofsM.
+From S2T Require Import Lib.PyStr C03.Lib C03.Model C03.Proofs C03.Extract C03.Docx C03.ProofsX C03.ProofsM C03.Sect C03.ProofsS C03.ProofsD.
 Import ListNotations.
 Open Scope Z_scope.
 
@@ -242,3 +242,93 @@ Theorem C03_docx_numbers_strict :
                    /\ StronglySorted Z.lt (map du_num (docx_units d)).
 Proof. intro d. split; [exact (docx_numbers d) | exact (docx_numbers_strict d)]. Qed.
 Print Assumptions C03_docx_numbers_strict.
+
+(* PARTIAL (positive) DOCX cover: in a clean document — no non-empty paragraph before the first heading, every
+   heading has text, no paragraph carries a page break (= exactly the three open DOCX findings excluded) — every
+   non-empty body paragraph (headings included) is covered by a unit's heading path or lines *)
+Theorem C03_docx_sections_cover_partial :
+  forall d : docx, docx_clean d = true ->
+    forall t, In t (body_texts d) -> In t (covered_texts (docx_units d)).
+Proof. exact docx_cover_clean. Qed.
+Print Assumptions C03_docx_sections_cover_partial.
+
+Example C03_docx_clean_satisfiable :
+  docx_clean (mkd [P "" None false; P "H1" (Some 1) false; P "body" None false; P "H2" (Some 2) false]) = true.
+Proof. reflexivity. Qed.
+Print Assumptions C03_docx_clean_satisfiable.
+
+(* ---------------------------------------------------------------- DOC / ODT heading sections *)
+(* units are numbered 1..n *)
+Theorem C03_doc_numbers_strict :
+  forall d : doc, map obs_num (doc_units d) = zseq 1 (List.length (doc_units d))
+                  /\ StronglySorted Z.lt (map obs_num (doc_units d)).
+Proof. intro d. split; [exact (doc_units_numbers d) | rewrite doc_units_numbers; apply zseq_sorted]. Qed.
+Print Assumptions C03_doc_numbers_strict.
+
+Theorem C03_odt_numbers_strict :
+  forall d : odt, map obs_num (odt_units d) = zseq 1 (List.length (odt_units d))
+                  /\ StronglySorted Z.lt (map obs_num (odt_units d)).
+Proof. intro d. split; [exact (odt_units_numbers d) | rewrite odt_units_numbers; apply zseq_sorted]. Qed.
+Print Assumptions C03_odt_numbers_strict.
+
+(* the non-empty body lines are exactly (order, multiplicity) the concatenation of the units' lines —
+   unconditionally, for both front-ends *)
+Theorem C03_doc_body_lines_exact :
+  forall lines tables,
+    List.concat (map su_lines (section_units (doc_items lines tables))) = line_texts (doc_items lines tables).
+Proof. intros lines tables. exact (section_lines_exact _ (doc_items_stripped lines tables)). Qed.
+Print Assumptions C03_doc_body_lines_exact.
+
+Theorem C03_odt_body_lines_exact :
+  forall ps b n,
+    List.concat (map su_lines (section_units (odt_items ps b n))) = line_texts (odt_items ps b n).
+Proof. intros ps b n. exact (section_lines_exact _ (odt_items_stripped ps b n)). Qed.
+Print Assumptions C03_odt_body_lines_exact.
+
+(* REFUTED (findings doc:/odt:heading-without-body-in-no-unit): heading texts are covered by a heading path *)
+Theorem C03_doc_sections_cover_refuted :
+  exists d t, let items := doc_items (dc_lines d) (dc_tables d) in
+    In t (item_texts items) /\ ~ In t (scovered (section_units items)).
+Proof. exists doc_witness, (s "Chapter 1"). exact (suncovered_spec _ _ (proj1 doc_heading_uncovered)). Qed.
+Print Assumptions C03_doc_sections_cover_refuted.
+
+Theorem C03_odt_sections_cover_refuted :
+  exists d t, let items := odt_items (od_paras d) false (od_ntables d) in
+    In t (item_texts items) /\ ~ In t (scovered (section_units items)).
+Proof. exists odt_witness, (s "A"). exact (suncovered_spec _ _ (proj1 odt_heading_uncovered)). Qed.
+Print Assumptions C03_odt_sections_cover_refuted.
+
+(* headings only: no unit at all (DOC: and an IndexError before fixes/C03-doc-units-empty.patch) *)
+Theorem C03_doc_headings_only_no_unit :
+  doc_units doc_witness2 = [] /\ doc_raised_index_error doc_witness2 = true.
+Proof. exact doc_headings_only. Qed.
+Print Assumptions C03_doc_headings_only_no_unit.
+
+Theorem C03_odt_headings_only_no_unit : odt_units odt_witness2 = [].
+Proof. exact odt_headings_only. Qed.
+Print Assumptions C03_odt_headings_only_no_unit.
+
+(* PARTIAL: when every section (heading with text) has at least one non-empty body line, every heading and body
+   text is covered — for DOC and ODT *)
+Theorem C03_doc_sections_cover_partial :
+  forall lines tables, sections_ok (doc_items lines tables) false = true ->
+    forall t, In t (item_texts (doc_items lines tables)) -> In t (scovered (section_units (doc_items lines tables))).
+Proof. intros lines tables. exact (sections_cover_partial _ (doc_items_stripped lines tables)). Qed.
+Print Assumptions C03_doc_sections_cover_partial.
+
+Theorem C03_odt_sections_cover_partial :
+  forall ps b n, sections_ok (odt_items ps b n) false = true ->
+    forall t, In t (item_texts (odt_items ps b n)) -> In t (scovered (section_units (odt_items ps b n))).
+Proof. intros ps b n. exact (sections_cover_partial _ (odt_items_stripped ps b n)). Qed.
+Print Assumptions C03_odt_sections_cover_partial.
+
+Example C03_sections_ok_satisfiable :
+  sections_ok (doc_items [L "preface" "preface"; L "Chapter 1" "chapter 1"; L "text" "text"] []) false = true.
+Proof. vm_compute. reflexivity. Qed.
+Print Assumptions C03_sections_ok_satisfiable.
+
+(* the ODT unit heading path (title merged in, equal neighbours collapsed) keeps every token of the walk's path *)
+Theorem C03_odt_merged_path_keeps_tokens :
+  forall base path t, In t path -> In t (merge_path base path).
+Proof. exact merge_path_incl. Qed.
+Print Assumptions C03_odt_merged_path_keeps_tokens.
